@@ -213,6 +213,9 @@ class C16(HistoryProperty):
             lg.setLevel(logging.DEBUG)
             lg.propagate = False
             lg.handlers = [sink]
+            lg._labsim_managed = True  # (the environment variation of the world leaves these two alone)
+        # logging.disable() in force (environment): nothing reaches the sink, the LogREQUESTS are issued all the same
+        silenced = bool((spec.get("env") or {}).get("log_disable"))
         seam = []
 
         def rec(request):
@@ -339,7 +342,7 @@ class C16(HistoryProperty):
                                 res.violate("log-emitted-while-disabled", **info, records=n_sink)
                                 break
                         elif out.ok:
-                            if n_seam != r_seam or (n_sink != n_seam_all and sw["effects"] == "on"):
+                            if n_seam != r_seam or (n_sink != n_seam_all and sw["effects"] == "on" and not silenced):
                                 res.violate("switch-changed-logging", **info, info_requests=n_seam, reference=r_seam, sink=n_sink, all_requests=n_seam_all)
                                 break
                             if not cache_off:
@@ -362,6 +365,7 @@ class C16(HistoryProperty):
                 lg.setLevel(lvl)
                 lg.propagate = prop
                 lg.handlers = hs
+                lg._labsim_managed = False
         return res
 
     @staticmethod
